@@ -250,6 +250,11 @@ def copy_kwargs(kind, name, orig):
     if name == "style_dict":
         d = {"opacity": 0.25, "path": {"line": {"width": 3}}}
         return {"style": d}, {}, [d]
+    if name in ("parent_empty", "parent_nonempty"):   # the copy is put into another collection (an empty one is falsy!)
+        import magpylib as magpy
+
+        tgt = magpy.Collection() if name == "parent_empty" else magpy.Collection(magpy.Sensor())
+        return {"parent": tgt, "position": (7, 8, 9)}, {"position": (7, 8, 9)}, []
     if name in REJECTED_KW:
         return dict(REJECTED_KW[name]), {}, []
     if name == "bad_uncopyable":  # something inside the object cannot be deep-copied: copy() raises
@@ -263,7 +268,7 @@ REJECTED_KW = {"bad_position": {"position": (1, 2)}, "bad_orientation": {"orient
 
 
 COPY_KW = ["none", "position", "position_ndarray", "position_from_getter", "orientation", "excitation_ndarray",
-           "geometry_ndarray", "geometry_from_getter", "style_label", "style_color", "style_dict"]
+           "geometry_ndarray", "geometry_from_getter", "style_label", "style_color", "style_dict", "parent_empty", "parent_nonempty"]
 COPY_KW_REJECTED = list(REJECTED_KW) + ["bad_uncopyable"]
 
 
@@ -439,7 +444,14 @@ def run_case(case):
     # --- immediately after copy
     if type(cp) is not type(orig):
         problems.append("copy has different class")
-    if cp._parent is not None or cp.parent is not None:
+    if "parent" in kw:
+        tgt = kw["parent"]
+        if cp._parent is not tgt or not tgt._children or tgt._children[-1] is not cp:
+            problems.append("copy(parent=C) is not the last child of C")
+        fe2 = forest_ok(tgt)
+        if fe2:
+            problems.append(f"requested parent inconsistent: {fe2}")
+    elif cp._parent is not None or cp.parent is not None:
         problems.append("copy has a parent")
     if parent is not None:
         if orig._parent is not parent or sum(1 for c in parent._children if c is orig) != 1:
@@ -536,7 +548,7 @@ def enumerate_cases(tier):
                                       "mut": "none", "side": "orig"})
                     for kw in COPY_KW:
                         full = tier == "thorough" or (
-                            kw in ("none", "position_ndarray", "position_from_getter", "geometry_from_getter", "style_dict")
+                            kw in ("none", "position_ndarray", "parent_empty", "position_from_getter", "geometry_from_getter", "style_dict")
                             and ((plen == 1 and not par) or (plen == 3 and par and sstate == "materialised" and kw == "none")))
                         muts = mutnames if full else ["move_scalar", "inplace__position", "style_update"]
                         if tier == "quick" and plen == 3 and sstate == "untouched" and kw != "none":
